@@ -219,7 +219,7 @@ def gen_cases(seed, chunk, n, tier):
 
 
 def run(ctx):
-    n = 800 if ctx.tier == "quick" else 20000
+    n = 5000 if ctx.tier == "quick" else 40000
     stream.run_stream(ctx, "bra", "harness.props.c10", "gen_cases", n, per_chunk=50,
                       canon_kw=dict(drop_zero=True))
 
